@@ -58,7 +58,12 @@ def setup(spec, ctx):
 
 def cases(spec, ctx):
     if spec["work"] == "runs":
-        for c in range(spec["n_cases"]):
+        order = list(range(spec["n_cases"]))
+        if spec["setting"] in ("t3", "t8"):
+            order.reverse()  # class- or module-level state left by one pipeline must not change the others
+        elif spec["setting"] == "t4":
+            order = order[1::2] + order[0::2]
+        for c in order:
             yield {"work": "runs", "c": c, "reps": spec["reps"], "setting": spec["setting"]}
     else:
         for i in range(spec["n"]):
@@ -96,6 +101,9 @@ def make_case(ctx, c):
     if c % 2 == 0:
         keys.append("filter")
         params["filter"] = {"filter_method": ["median", "bilateral"][(c // 2) % 2]}
+        if params["filter"]["filter_method"] == "bilateral":
+            # different sigma_space values that give the same window width (2.0 / 2.3 -> 7, 1.0 / 1.2 -> 4)
+            params["filter"].update({"sigma_space": [2.0, 2.3, 1.0, 1.2][(c // 4) % 4], "sigma_color": [2.0, 3.0][(c // 8) % 2]})
     keys.append("filter.mfi")
     params["filter.mfi"] = {"filter_method": "median_for_intervals", "interval_indicator": "ib", "regularization": True,
                             "ambiguity_indicator": "", "vertical_depth": (c + 1) % 3, "ambiguity_threshold": 0.7}
@@ -240,8 +248,8 @@ def finish(coverage, tot, tier):
             for k, v in par.items():
                 groups.setdefault(v[0], []).append(k)
             tot["violations"].append({
-                "clause": "result-depends-on-thread-count", "situation": "full-products",
-                "what": f"case {c}: product digests differ across processes: {groups}",
+                "clause": "result-differs-across-processes", "situation": "full-products",
+                "what": f"case {c}: product digests differ across worker processes (different thread counts and different orders of the other cases): {groups}",
                 "case": {"work": "runs", "c": int(c), "reps": 2, "setting": "replay"}, "shard": "cross-process", "mode": "A"})
         if "seq" in d:
             parts = {v[1] for v in d.values()}
